@@ -517,7 +517,15 @@ func (v *Value) Interface() any {
 }
 
 // EqualValueTo checks whether two values are containing the same value or object (if comparable).
-func (v *Value) EqualValueTo(other *Value) bool {
+func (v *Value) EqualValueTo(other *Value) (equal bool) {
+	// Values of a comparable static type (like an interface, or an array/struct
+	// of interfaces) can still hold uncomparable data, which makes == panic.
+	defer func() {
+		if recover() != nil {
+			equal = false
+		}
+	}()
+
 	// comparison of uint with int fails using .Interface()-comparison (see issue #64)
 	if v.IsInteger() && other.IsInteger() {
 		return v.Integer() == other.Integer()
